@@ -9,6 +9,7 @@ def register(db):
     collab.declare(db)
     register_nodes(db)
     register_any_attribute(db)
+    register_wrapper_scope(db)
     P = ["C09"]
     db.add(Contract(
         "xsdata.formats.dataclass.parsers.utils:ParserUtils.normalize_content",
@@ -244,4 +245,44 @@ def register_any_attribute(db):
         hints=["cut_at(p, ':', l)"],
         ensures=[("kept-as-given", "result == value")],
         raises={}, returns="str", properties=["C09"],
+    ))
+
+
+def register_wrapper_scope(db):
+    """NodeParser.start, wrapper element: every node on the parser's queue carries the in-scope namespace map of *its*
+    element - the pure-Python handler computes a child's map from `queue[-1].ns_map` (merge_parent_namespaces), so a
+    node that carries another element's map makes the declarations written on its own element invisible to its
+    children (the lxml handler, which gets complete maps from libxml2, would then disagree with the native one)."""
+    from .c10_strictness import element_node
+
+    NP = "xsdata.formats.dataclass.parsers.bases:NodeParser"
+    WN = "xsdata.formats.dataclass.parsers.nodes.wrapper:WrapperNode"
+    db.inline.add(f"{WN}.__init__")
+    collab.field(db, "XmlMeta", "wrappers", "u:WrapperIndex")
+
+    def contains(ex, st, v, item):
+        from pyvc.contracts import pure_result
+        yield st, pure_result(ex, st, "WrapperIndex.has", "bool", [v, item])
+
+    db.opaque_ops[("WrapperIndex", "contains")] = contains  # a dict keyed by wrapper qname: membership is a function of (index, key)
+
+    def parser(mk, base):
+        return mk.obj(NP, {"config": "opaque:ParserConfig", "context": "opaque:XmlContext", "handler": "opaque:type"})
+
+    def queue_of_one_element(mk, base):
+        from pyvc.values import PList
+        item = element_node(mk, "item")
+        mk.exports["item"] = item
+        return mk.st.alloc(PList([item]))
+
+    db.add(Contract(
+        f"{NP}.start", variant="wrapper-element",
+        params={"self": parser, "clazz": "u:type|None", "queue": queue_of_one_element, "objects": "opaque:PyList", "qname": "str",
+                "attrs": "opaque:PyDict", "ns_map": "dict[str|None,str]"},
+        requires=["qname in item.meta.wrappers"],
+        ensures=[("one-node-queued", "len(queue) == 2 and queue[0] is item"),
+                 ("queued-node-carries-the-scope-of-its-own-element", "same_dict(queue[1].ns_map, ns_map)"),
+                 ("children-are-delegated-to-the-parent-under-the-wrapper-name", "queue[1].parent is item and queue[1].qname == qname")],
+        raises={}, modifies=["queue"], properties=["C09"],
+        note="the wrapper branch of start(); the other branch delegates to ElementNode.child / build_node (own contracts)",
     ))
